@@ -235,3 +235,106 @@ def _real_reader(helper, path):
     if OP == "required":
         return helper.is_required(list(path))
     return helper.max_definition_level(list(path))
+
+
+# ------------------------------------------------------------------ reads do not disturb the shared handle ---
+# A read-only operation on a handle (head, count, slicing) may run while another thread uses the same handle: at no
+# statement boundary of the operation may the handle's shared state (its list of row groups, the footer's list, the
+# derived dtypes) differ from what it was.  The real method is re-compiled with a `yield` after every statement; the
+# state is compared at every yield (every point at which another thread could run).
+import fastparquet.api as api_mod
+
+
+def _stepped_method(fn, extra_names=()):
+    ns = dict(api_mod.__dict__)
+    tree, n = _rewrite(fn)
+    exec(compile(tree, "<api.%s, yield after every statement>" % fn.__name__, "exec"), ns)
+    return ns[fn.__name__]
+
+
+HEAD_STEPPED = _stepped_method(api_mod.ParquetFile.head)
+
+
+class _Read:
+    def __init__(self, n):
+        self.n = n
+
+    def head(self, k):
+        return min(self.n, k) if k >= 0 else 0
+
+
+def _snapshot(pf):
+    # (thrift wrappers are created on access; the dictionaries underneath are the row groups' identity)
+    return ([id(rg.contents) for rg in pf.row_groups], [id(rg.contents) for rg in pf.fmd.row_groups], pf.file_scheme,
+            dict(pf.cats))
+
+
+def h_head_leaves_handle(n0: int, n1: int, n2: int, nrows: int) -> bool:
+    """
+    pre: 1 <= n0 <= 1000 and 1 <= n1 <= 1000 and 1 <= n2 <= 1000 and 0 <= nrows <= 4000
+    post: __return__
+    """
+    from vf.pyshim.h_c06 import _real_handle
+    rows = [n0, n1, n2]
+    pf = _real_handle(rows)
+    before = _snapshot(pf)
+    saved = api_mod.ParquetFile.to_pandas
+    # the read itself is a stub: it reports how many rows the handle it runs on covers
+    api_mod.ParquetFile.to_pandas = lambda self, **kw: _Read(sum(rg.num_rows for rg in self.row_groups))
+    ok = True
+    try:
+        gen = HEAD_STEPPED(pf, nrows)
+        try:
+            while True:
+                next(gen)
+                ok = ok and _snapshot(pf) == before        # another thread may look at the handle here
+        except StopIteration as st:
+            got = st.value
+    finally:
+        api_mod.ParquetFile.to_pandas = saved
+    return ok and _snapshot(pf) == before and got == min(nrows, n0 + n1 + n2)
+
+
+def replay_h_head_leaves_handle(n0, n1, n2, nrows):
+    """real threads on one handle of a real file: head() in a loop against count() / len(row_groups)"""
+    import os, shutil, sys, tempfile, threading
+    import pandas as pd
+    import fastparquet
+    d = tempfile.mkdtemp(prefix="c20-")
+    try:
+        fn = os.path.join(d, "t.parq")
+        rows = [min(n, 50) for n in (n0, n1, n2)]
+        total = sum(rows)
+        fastparquet.write(fn, pd.DataFrame({"a": range(total)}), row_group_offsets=[0, rows[0], rows[0] + rows[1]])
+        pf = fastparquet.ParquetFile(fn)
+        want = min(max(nrows, 1), rows[0])
+        errors, stop = [], threading.Event()
+
+        def heads():
+            while not stop.is_set():
+                try:
+                    pf.head(want)
+                except Exception as ex:
+                    errors.append("head raised %s" % type(ex).__name__)
+                    return
+
+        old = sys.getswitchinterval()
+        sys.setswitchinterval(1e-6)
+        try:
+            t = threading.Thread(target=heads)
+            t.start()
+            for _ in range(3000):
+                n, c = len(pf.row_groups), pf.count()
+                if n != 3 or c != total:
+                    errors.append("while another thread runs head(%d), the shared handle shows %d row groups / "
+                                  "count() = %d (file: 3 row groups, %d rows)" % (want, n, c, total))
+                    break
+            stop.set()
+            t.join()
+        finally:
+            sys.setswitchinterval(old)
+        if errors:
+            return True, errors[0]
+        return False, "no interference observed in 3000 reads"
+    finally:
+        shutil.rmtree(d, ignore_errors=True)
